@@ -122,6 +122,27 @@ def parseImgs (s : String) : List Img :=
           | _ => (unhex l, 0) }
     | _ => { cfgName := [], cfgSize := 0, layers := [] }
 
+/-- answer for one emitted image config: Impl's config, the oracle's verdict on Go's, class -/
+def configAnswer (ic : ImageCfg) (shEp shCmd created arch
+    gEp gCmd gWd gSig gUser gVol gEnv gLabels gAuthor gOs gCreated gArch gVariant : String) : String :=
+  let shlex : Text → Option (List Text) := fun s =>
+    if s = ic.epCmd then parseShlex shEp else if s = ic.cmd then parseShlex shCmd else none
+  let shlex : Text → Option (List Text) := fun s =>
+    -- when both strings are equal the two observations agree (shlex is a function)
+    if s = ic.cmd ∧ s ≠ ic.epCmd then parseShlex shCmd else shlex s
+  let cr := unhexS created; let ar := unhexS arch
+  let impl := match Impl.buildConfig shlex ic cr ar with
+    | some o => showConfig o
+    | none => "err"
+  let spec :=
+    if gEp = "err" then
+      (if Impl.buildConfig shlex ic cr ar = none then "pass" else "fail:unexpected-error")
+    else
+      let o : OciConfig := mkOut gEp gCmd gWd gSig gUser gVol gEnv gLabels gAuthor gOs gCreated gArch gVariant
+      if Impl.buildConfig shlex ic cr ar = none then "fail:error-expected"
+      else Spec.configVerdict shlex ic cr ar o
+  triple impl spec (if spec = "pass" then "-" else "unlisted")
+
 def handle (args : List String) : Option String :=
   match args with
   | ["oci.arch", s] =>
@@ -172,23 +193,17 @@ def handle (args : List String) : Option String :=
       shEp, shCmd, created, arch,
       gEp, gCmd, gWd, gSig, gUser, gVol, gEnv, gLabels, gAuthor, gOs, gCreated, gArch, gVariant] =>
     let ic : ImageCfg := mkCfg aEpShell aEpCmd aCmd aWorkdir aStop aVcs aRunAs aVolumes aEnv aAnn
-    let shlex : Text → Option (List Text) := fun s =>
-      if s = ic.epCmd then parseShlex shEp else if s = ic.cmd then parseShlex shCmd else none
-    let shlex : Text → Option (List Text) := fun s =>
-      -- when both strings are equal the two observations agree (shlex is a function)
-      if s = ic.cmd ∧ s ≠ ic.epCmd then parseShlex shCmd else shlex s
-    let cr := unhexS created; let ar := unhexS arch
-    let impl := match Impl.buildConfig shlex ic cr ar with
-      | some o => showConfig o
-      | none => "err"
-    let spec :=
-      if gEp = "err" then
-        (if Impl.buildConfig shlex ic cr ar = none then "pass" else "fail:unexpected-error")
-      else
-        let o : OciConfig := mkOut gEp gCmd gWd gSig gUser gVol gEnv gLabels gAuthor gOs gCreated gArch gVariant
-        if Impl.buildConfig shlex ic cr ar = none then "fail:error-expected"
-        else Spec.configVerdict shlex ic cr ar o
-    some <| triple impl spec (if spec = "pass" then "-" else "unlisted")
+    some <| configAnswer ic shEp shCmd created arch
+      gEp gCmd gWd gSig gUser gVol gEnv gLabels gAuthor gOs gCreated gArch gVariant
+  -- a whole `apko build`: the configuration as written plus what the build resolves it against (entrypoint type,
+  -- name/uid pairs of the image's own /etc/passwd); `shEp` is shlex observed on the resolved command
+  | ["oci.config-e2e", epType, passwd, aEpShell, aEpCmd, aCmd, aWorkdir, aStop, aVcs, aRunAs, aVolumes, aEnv, aAnn,
+      shEp, shCmd, created, arch,
+      gEp, gCmd, gWd, gSig, gUser, gVol, gEnv, gLabels, gAuthor, gOs, gCreated, gArch, gVariant] =>
+    let ic0 : ImageCfg := mkCfg aEpShell aEpCmd aCmd aWorkdir aStop aVcs aRunAs aVolumes aEnv aAnn
+    let ic := Spec.resolveCfg (unhexS epType) (parsePairs passwd) ic0
+    some <| configAnswer ic shEp shCmd created arch
+      gEp gCmd gWd gSig gUser gVol gEnv gLabels gAuthor gOs gCreated gArch gVariant
   | _ => none
 
 end Apko.Driver.Oci
